@@ -366,6 +366,7 @@ let run_pshist payload =
     | L [A "json"] -> OJsonRoundTrip
     | L [A "cedarrt"] -> OCedarRoundTrip
     | L (A "fromdoc" :: hs) -> OFromDoc (List.map (fun h -> cz_of_string (atom h)) hs)
+    | L (A "loadjson" :: bs) -> OLoadJson (List.map (function L [A id; A h] -> (str_of_atom id, cz_of_string h) | _ -> failwith "loadjson") bs)
     | L [A "authz"] -> OAuthorize
     | s -> failwith ("bad op " ^ to_string s) in
   let outs = run pool_eff pool_ev [] (List.map op_of ops) in
